@@ -14,7 +14,6 @@ type nullAttacher struct{}
 
 func (nullAttacher) Attach() (p9.File, error) { return nil, linux.ENOENT }
 
-
 // dialPipe connects a real p9.Client to srv over an in-memory duplex.
 func dialPipe(srv *p9.Server, opts ...p9.ClientOpt) (*p9.Client, func(), error) {
 	a, b := vconn.Pipe()
